@@ -15,7 +15,7 @@ Bases(s) == [i \in 1..Len(s) |-> s[i].base]
 StMatch(st) == /\ mem'.next = st.next /\ Bases(mem'.buf) = st.buf /\ mem'.flushing = st.flushing /\ Bases(mem'.fb) = st.fb
                /\ [i \in 1..Len(mem'.segs) |-> <<mem'.segs[i].base, mem'.segs[i].last>>] = st.segs
 TInit == Init /\ l = 1 /\ TLCSet(7, 0)
-TReset == /\ Cur("Reset") /\ E.inline = InlineAt /\ E.interval = Interval
+TReset == /\ Cur("Reset") /\ E.inline = InlineAt /\ E.interval = Interval /\ E.sync = SyncFlush
           /\ mem' = EmptyMem /\ up' = TRUE /\ rfail' = FALSE /\ restarted' = FALSE /\ s3seg' = {} /\ s3idx' = {} /\ storeNext' = 0
           /\ pc' = [p \in Producers |-> "idle"] /\ stage' = [p \in Producers |-> "flush"]
           /\ req' = [p \in Producers |-> NoReq] /\ art' = [p \in Producers |-> NoArt]
@@ -53,7 +53,7 @@ TRestoreLines == /\ (Cur("Restore") \/ (Cur("UpdateOffsets") /\ E.p = "")) /\ ~u
 TRestart == /\ Cur("Restart") /\ Restart /\ up' = E.ok
             /\ (E.ok => (mem'.next = E.next /\ StMatch(E.st)))
 TGrid == /\ Cur("Grid") /\ up /\ UNCHANGED vars
-         /\ E.hw = storeNext /\ E.lo = storeNext /\ E.next = mem.next
+         /\ E.hw = FetchHW /\ E.lo = storeNext /\ E.next = mem.next
          /\ \A i \in DOMAIN E.reads :
               LET r == E.reads[i]  m == ReadSpec(r.o, r.mb) IN
                 /\ m.kind = r.kind
